@@ -98,6 +98,11 @@ type outcome struct {
 
 // mitmCase runs real client <-> real server with the server's first write
 // modified by t.
+//
+// serverFirst is how many stream bytes the server application sends right
+// behind its handshake (100 everywhere except in part of the genuine cases).
+var serverFirst = 100
+
 func mitmCase(c *mon.Case, r *mon.Run, sf base.ServerFactory, b o4.Bridge, t tamper, chunkIdx int, seed uint64, clientArgsBridge o4.Bridge) (out outcome, applied bool) {
 	cw, sw := memwire.Pair(memwire.Options{Keep: true})
 	c2s, s2c := cw.Out(), sw.Out()
@@ -150,8 +155,8 @@ func mitmCase(c *mon.Case, r *mon.Run, sf base.ServerFactory, b o4.Bridge, t tam
 		if err != nil {
 			return
 		}
-		// server application: send 100 stream bytes at once, echo nothing; count what arrives
-		sc.Write(st.Bytes(0, 100))
+		// server application: send serverFirst stream bytes at once, echo nothing; count what arrives
+		sc.Write(st.Bytes(0, serverFirst))
 		buf := make([]byte, 4096)
 		for {
 			n, err := sc.Read(buf)
@@ -169,9 +174,9 @@ func mitmCase(c *mon.Case, r *mon.Run, sf base.ServerFactory, b o4.Bridge, t tam
 		cc.Write(st.Bytes(1000, 50))
 		tm := time.AfterFunc(5*time.Second, func() { cw.Close() })
 		defer tm.Stop()
-		buf := make([]byte, 4096)
+		buf := make([]byte, serverFirst+4096)
 		got := 0
-		for got < 100 {
+		for got < serverFirst {
 			n, err := cc.Read(buf[got:])
 			got += n
 			if err != nil {
@@ -180,7 +185,7 @@ func mitmCase(c *mon.Case, r *mon.Run, sf base.ServerFactory, b o4.Bridge, t tam
 			}
 		}
 		out.clientGot = int64(got)
-		out.pingPong = got == 100 && st.Check(buf[:100], 0) < 0
+		out.pingPong = got == serverFirst && st.Check(buf[:serverFirst], 0) < 0
 		synctest.Wait() // let the server application drain what the client wrote
 		cc.Close()
 	}
@@ -327,7 +332,7 @@ func TestCheck(t *testing.T) {
 	r := mon.Start(t, "C02")
 	defer r.Finish()
 	r.SpinWatch(memwire.BytesMoved)
-	r.Note("rule", "per bridge: genuine control (must complete, data both ways); man-in-the-middle on a genuine real server's first write: EVERY single bit of representative, AUTH, mark and MAC (768 bits) plus PRNG-sampled padding bits and seed-frame bits, truncation/insertion/deletion inside every field, field offsets found from public data only; impostor servers (reference implementation with the victim's public B and NODEID but another private key; replay of a recorded genuine response; bridge lines whose public key is any of the 14 encodings of a small-order point, served by a peer that computes AUTH with EXP(B,x)=0); clients configured with NODEID or B differing in one bit or random; all under response chunkings {all,1,31,33,63,65,PRNG}; 32 clients handshaking concurrently against one factory under the race detector; ephemeral representatives of all hellos/responses must be pairwise distinct. Non-trivial = a case whose modification was actually applied (or an impostor/misconfiguration/genuine case that ran); distinct = (bridge, class, position, chunking).")
+	r.Note("rule", "per bridge: genuine control (must complete, data both ways; the server speaking first with 100, 8192 or 20000 bytes right behind its handshake, under every chunking); man-in-the-middle on a genuine real server's first write: EVERY single bit of representative, AUTH, mark and MAC (768 bits) plus PRNG-sampled padding bits and seed-frame bits, truncation/insertion/deletion inside every field, field offsets found from public data only; impostor servers (reference implementation with the victim's public B and NODEID but another private key; replay of a recorded genuine response; bridge lines whose public key is any of the 14 encodings of a small-order point, served by a peer that computes AUTH with EXP(B,x)=0); clients configured with NODEID or B differing in one bit or random; all under response chunkings {all,1,31,33,63,65,PRNG}; 32 clients handshaking concurrently against one factory under the race detector; ephemeral representatives of all hellos/responses must be pairwise distinct. Non-trivial = a case whose modification was actually applied (or an impostor/misconfiguration/genuine case that ran); distinct = (bridge, class, position, chunking).")
 	dir := o4.StateDir("c02")
 	nBridges := r.Pick(4, 24)
 	for bi := 0; bi < nBridges; bi++ {
@@ -470,11 +475,17 @@ func TestCheck(t *testing.T) {
 			if sf == nil {
 				return
 			}
-			for i := 0; i < r.Pick(14, 56); i++ {
+			for i := 0; i < r.Pick(21, 84); i++ {
+				// the server speaks first: 100 bytes, or a bulk of 8..20 KiB right behind
+				// its handshake (under every chunking of what the client reads)
+				serverFirst = []int{100, 8192, 20000}[(i/len(chunkings))%3]
 				out, _ := mitmCase(c, r, sf, b, tamper{kind: "none"}, i, r.Sub("gen", bi, i), b)
+				first := serverFirst
+				serverFirst = 100
 				r.Count("evaluations", 1)
+				r.Count(fmt.Sprintf("genuine_server_first_%d_bytes", first), 1)
 				if out.dialErr != nil || !out.pingPong || out.serverGot != 50 {
-					c.Violation("genuine-pair-failed", fmt.Sprintf("untouched genuine pair: dial err=%v, client got %d/100 (ok=%v), server got %d/50", out.dialErr, out.clientGot, out.pingPong, out.serverGot), map[string]any{"bridge": bi, "i": i, "chunking": chunkings[i%len(chunkings)]})
+					c.Violation("genuine-pair-failed", fmt.Sprintf("untouched genuine pair: dial err=%v, client got %d/%d (ok=%v), server got %d/50", out.dialErr, out.clientGot, first, out.pingPong, out.serverGot), map[string]any{"bridge": bi, "i": i, "chunking": chunkings[i%len(chunkings)], "server_first_bytes": first})
 					continue
 				}
 				r.Count("control_genuine_completed", 1)
